@@ -14,6 +14,7 @@ import traceback
 
 from . import tlc as T
 
+REPO = os.environ.get("VERIF_REPO", "/repo")
 VERIF = os.path.dirname(os.path.dirname(os.path.abspath(__file__)))
 OUT_DIR = os.path.join(VERIF, "out")
 EVIDENCE_DIR = os.path.join(VERIF, "evidence")
@@ -172,6 +173,20 @@ class Ctx:
         else:
             self.violations.append({"signature": signature, "what": what, "replay": None})
         return True
+
+    def selftest_corrupt(self, module, good_trace, corrupt, constants=None, **kw):
+        """Demonstrate the binding (DESIGN.md 3.6): `corrupt(copy of an accepted trace)` must be rejected by the trace spec.
+        A corrupted trace that is accepted means the trace spec constrains nothing: machinery failure."""
+        import copy
+        bad = corrupt(copy.deepcopy(good_trace))
+        before = self.traces_validated
+        acc, rej = self.validate(module, [good_trace, bad], constants=constants, shards=1, label=module + " selftest-corrupt", **kw)
+        self.traces_validated = before
+        ok = (acc == 1 and [r[0] for r in rej] == [1])
+        self.notes.setdefault("selftest_corrupted_trace_rejected", []).append(bool(ok))
+        if not ok:
+            raise MachineryFailure("binding self-test failed for %s: accepted=%d rejected=%s (expected the pristine trace accepted "
+                                   "and the corrupted one rejected)" % (module, acc, rej))
 
     def model_drift(self, key, n=1, example=None):
         d = self.drift.setdefault(key, {"count": 0, "example": example})
